@@ -4,7 +4,7 @@ import yaml
 import vlib, specgen, inv
 from vlib import Result, log
 
-THEOREMS = ["C11_btree_perm", "C11_btree_sorted", "C11_marking_order_irrelevant", "C11_canonical_member_order", "C11_canonical_nonvacuous", "C11_nonvacuous"]
+THEOREMS = ["C11_btree_perm", "C11_btree_sorted", "C11_marking_order_irrelevant", "C11_canonical_member_order", "C11_canonical_order_deep", "C11_canonical_deep_nonvacuous", "C11_canonical_nonvacuous", "C11_nonvacuous"]
 TARGETS = ["Props/C11.v"]
 MODES = ["types", "client", "client-mod", "server-mod"]
 # environments the output must not depend on
@@ -96,7 +96,7 @@ def freeform_spec():
 def main(tier, seed, replay=None):
     res = Result("C11", tier, seed)
     vlib.build_repo()
-    coq_ok, out = vlib.standard_coq_obligations(res, TARGETS, THEOREMS, expect_closed=4)
+    coq_ok, out = vlib.standard_coq_obligations(res, TARGETS, THEOREMS, expect_closed=5)
     cur = inv.current()
     ok, detail, n, gone = inv.compare("hash", cur)
     res.oblige(f"inventory: every iteration over a HashMap/HashSet in non-test source ({n} sites) is in the reviewed list with its order-irrelevance argument", ok, detail)
